@@ -137,7 +137,10 @@ PROPS = {
     "C16": {
         "claim": "Theorems about the option builder: every key holds its last write, names are matched through lower-casing, call options override defaults, nil values write nothing, a nil option yields the dedicated error, permuting options with pairwise distinct keys leaves the maps unchanged. Tied to the code by comparing the real builder's four maps (hook VerifBuilder) with the model over random option lists with casings, duplicates, default/call splits and a random permutation.",
         "note": "strings.ToLower is modelled as ASCII lower-casing.",
-        "theorems": ["ArgMapper.C16.last_wins", "ArgMapper.C16.build_ok", "ArgMapper.C16.nil_option", "ArgMapper.C16.nil_value_ignored", "ArgMapper.C16.case_insensitive", "ArgMapper.C16.lower_idem", "ArgMapper.C16.call_overrides_default", "ArgMapper.C16.permutation"],
+        "theorems": ["ArgMapper.C16.last_wins", "ArgMapper.C16.build_ok", "ArgMapper.C16.nil_option", "ArgMapper.C16.nil_value_ignored", "ArgMapper.C16.case_insensitive", "ArgMapper.C16.lower_idem", "ArgMapper.C16.call_overrides_default", "ArgMapper.C16.permutation",
+                     "ArgMapper.C16.named_empty_name", "ArgMapper.C16.namedSub_empty_name", "ArgMapper.C16.namedSub_empty_subtype",
+                     "ArgMapper.C16.typedSub_empty_subtype", "ArgMapper.C16.valueArg_eq_namedSub", "ArgMapper.C16.valueSetArgs_build",
+                     "ArgMapper.C16.valueSetArgs_buildFor"],
         "modules": ["ArgMapper.Props.C16"],
         "rule": "opts: at least one option.",
         "runs": {"quick": [fam("opts", 2000, 8), fam("redef", 300, 0), fam("call", 300, 0, "general")], "thorough": [fam("opts", 100000, 10), fam("opts", 50000, 5), fam("redef", 20000, 0), fam("call", 20000, 0, "general")]},
